@@ -171,6 +171,21 @@ NEEDS = {
  "C17k": "HELD-OUT 6: supergates(construct_supercircuit=True) of a single-output circuit with a primary input outside the output's cone: the super-circuit loses that input",
  "C18k": "HELD-OUT 6: acyclic_unroll bypasses every non-output buf: an xor/xnor reading a net and a buffer of the same net loses an operand",
  "C19k": "HELD-OUT 6: tx.acyclic_unroll on a circuit it rejects (a loop plus a self-feeding gate): the feedback edges are removed from the argument's own graph and only restored on success",
+ "C01l": "HELD-OUT 7: a partial assignment that assumes a constant-1 node False (the unit clause the encoder wrote for the constant makes add_assumptions skip the contradicting assumption)",
+ "C03l": "HELD-OUT 7: a blackbox whose type name is a primitive gate name in upper or mixed case (BUF, Nand, XOR): the reader lower-cases the module name before testing it against the primitive list",
+ "C04l": "HELD-OUT 7: a mitered circuit that contains two nets n and c0_n (or c1_n): add_subcircuit keeps names that already start with the instance prefix, so both map to c0_n and are merged",
+ "C05l": "HELD-OUT 7: acyclic_unroll of a circuit in which a constant node (type 0/1) is itself marked as output: the output is dropped",
+ "C06l": "HELD-OUT 7: add_subcircuit / add_blackbox whose connection map attaches a child OUTPUT to a parent net that does not exist, listed after connections that are fine: connect now raises KeyError, the ValueError roll-back does not fire, the half-made instance stays",
+ "C07l": "HELD-OUT 7: add(n, 'buf'|'not', fanin=[a], fanout=[n]) - the new node in its own fanout plus one other driver: both directions are checked before any edge exists, the buffer gets two fan-ins",
+ "C08l": "HELD-OUT 7: model_count / signal_probability / solve with an assumption that contradicts a constant node (constant 0 assumed True): construct_solver filters assumptions on constants out",
+ "C09l": "HELD-OUT 7: sequential_unroll with ignore_pins=P, then a later call on a circuit with the same BlackBox type object that does not ignore P: the type's own pin sets were narrowed in place",
+ "C10l": "HELD-OUT 7: an and/nand/or/nor gate reading two nets one of whose names is a prefix of the other with a next character sorting before '_' (n1 / n10, d / d[0]): fan-in names and companion names are sorted separately and zipped",
+ "C11l": "HELD-OUT 7: sensitization_transform / sensitize (endpoints=None) of a node without a path to the circuit's ONLY output: the single comparator is dropped and `sat` (a buf) is left undriven, i.e. free",
+ "C15l": "HELD-OUT 7: circuit_to_bench of a circuit with a net name containing a non-ASCII white-space character (U+00A0, U+2003, U+0085, U+001C..): the writer's new set test accepts it, the reader splits at it",
+ "C16l": "HELD-OUT 7: remove_unloaded(inputs=True) on a circuit without any output mark or blackbox input pin: startpoints(<empty selection>) returns all startpoints, so no input is deleted",
+ "C17l": "HELD-OUT 7: supergates of a circuit whose only reconvergence closes directly at a fan-out-free output gate (n -> m -> a -> o and n -> o): has_reconvergent_fanout misses it and the 'tree fast path' drops the forward dominator edges",
+ "C18l": "HELD-OUT 7: acyclic_unroll with two feedback nodes on overlapping loops, the later one (set order, PYTHONHASHSEED) keeping an edge to an xor/xnor load that also gets aux_in: the operand is doubled and lost",
+ "C19l": "HELD-OUT 7: tx.supergates on a circuit with all fan-ins <= 2, one output whose cone is the whole circuit, and another output: limit_fanin copy skipped + cone not rebuilt, so set_output clears the caller's other output marks",
  "C18d": "(helper: Circuit.disconnect testing `u in us` with a single name, i.e. a substring test) a cut feedback node whose name contains the name of another driver of one of its loads (n12 / n1)",
  "C19c": "influence/avg_sensitivity with supergates=True and a peer failure in the middle (solver raises, pysat unimportable, approxmc missing or exit 1)",
  "C19": "tx.subcircuit asked for ALL nodes of a blackbox-free circuit (directly or through sensitization_transform / influence with an endpoint whose cone is the whole circuit), then any edit or the internal set_output",
@@ -213,7 +228,9 @@ def main():
         if not os.path.isfile(os.path.join(d, "patch.diff")) or (only and sid not in only):
             continue
         prop = sid[:3]
-        if sid.endswith("k"):
+        if sid.endswith("l"):
+            src2 = " (round 12, seventh held-out measurement)"
+        elif sid.endswith("k"):
             src2 = " (round 11, sixth held-out measurement, after audit round 2)"
         elif sid.endswith("j"):
             src2 = " (round 10, fifth held-out measurement, after the history / representation seams and the audit-driven workload extensions)"
